@@ -216,7 +216,7 @@ JobEndF(C, X, j, o) ==
             !.res[j] = IF o = "ok" THEN <<"ret", j>> ELSE IF o = "exc" THEN <<"exc", j>> ELSE NONE]
 
 (* CancelDone(j): a cancelled body has finished its clean-up               *)
-Released(C, X, j)    == IF C.cwait[j] = 0 THEN TRUE ELSE X.st[C.cwait[j]] \in {"cancelling", "ok", "exc", "cancelled"}
+Released(C, X, j)    == IF C.cwait[j] = 0 THEN TRUE ELSE X.st[C.cwait[j]] \in {"cancelling", "ok", "exc", "cancelled", "selfc"}
 CancelDoneG(C, X, j) == /\ IsJob(C, j) /\ X.st[j] = "cancelling" /\ X.now >= X.tc[j] + C.cdur[j]
                         /\ Released(C, X, j)
 CancelDoneF(C, X, j) == IF C.cout[j] = "exc"
